@@ -10,7 +10,6 @@ import streams
 
 ID = "C12"
 LEVEL = "proof"
-NOT_CLAIMED = "in progress: metamorphic search and correspondence run; equivariance theorems are being proved"
 MODEL_TARGETS = ["theories/Analysis.vo"]
 TRANSLATORS = ["semiring", "rules"]
 LEVEL_TEXT = ("Theorems in coq/props/C12.v: the calculus derivation and the analysis model are equivariant under injective renamings (whatever the "
@@ -80,7 +79,10 @@ def obs(d, ren=None):
     rel = d.get("apply")
     if rel is not None and not d["infinite"] and d["index"] <= 6:
         mats = []
-        for c in itertools.product((0, 1, 2), repeat=d["index"]):
+        for n_, c in enumerate(itertools.product((0, 1, 2), repeat=d["index"])):
+            if d["valid"] is not None and not d["valid"][n_]:
+                mats.append(None)      # the property speaks of the matrix at every VALID choice
+                continue
             m = rel.apply_choice(*c).matrix
             mats.append(sorted((vs[i], vs[j], m[i][j]) for i in range(len(vs)) for j in range(len(vs))))
         o["matrices"] = mats
